@@ -278,7 +278,7 @@ func (e *Engine) eq(a, b Value) *Term {
 			r = tAnd(r, e.eq(a.elems[i], bs.elems[i]))
 		}
 		return r
-	case JBytes, bufBytes, SigBytes:
+	case JBytes, bufBytes, SigBytes, YBytes:
 		// byte slices holding a document: only comparison with nil is meaningful
 		if bs, ok := b.(SliceVal); ok && bs.arr == nil {
 			return tFalse
@@ -1016,7 +1016,7 @@ func (e *Engine) builtin(fr *Frame, b *ssa.Builtin, c *ssa.CallCommon, args []Va
 				return mkInt(0)
 			}
 			return mkInt(int64(len(x.m.entries)))
-		case JBytes, bufBytes, SigBytes:
+		case JBytes, bufBytes, SigBytes, YBytes:
 			return mkInt(1)
 		}
 	case "cap":
